@@ -3,13 +3,13 @@ import json, glob, os, re, sys
 rows = []
 for f in sorted(glob.glob(os.path.join(os.path.dirname(__file__), "..", "seeded", "*", "meta.json"))):
     m = json.load(open(f))
-    rnd = 1 if m["id"][-1] in "ab" else 2
+    rnd = {"a": 1, "b": 1, "c": 2, "d": 2, "e": 3, "f": 3}.get(m["id"][-1], 4)
     if len(sys.argv) > 1 and int(sys.argv[1]) != rnd:
         continue
     summ = re.split(r"(?<=[a-z\)])\. ", m["summary"].replace("\n", " "))[0][:170]
     det = m["detection"]
     how = m["detected_by"].replace("\n", " ")
     how = how[:230] + ("…" if len(how) > 230 else "")
-    rows.append("| %s | %s | %s%s |" % (m["id"], summ.replace("|", "/"), "**%s** — " % det if det != "caught" else "", how.replace("|", "/")))
+    rows.append("| %s | %s | %s%s |" % (m["id"], summ.replace("|", "/"), "**%s** — " % det if det not in ("caught", "detected") else "", how.replace("|", "/")))
 print("| seed | what breaks | caught by |\n|---|---|---|")
 print("\n".join(rows))
